@@ -45,7 +45,7 @@ func openLinzDB(dir string) *NoKV.DB {
 	opt.ValueLogGCInterval = 0
 	opt.ValueLogBucketCount = 1
 	opt.ValueLogHotBucketCount = 0
-	opt.MaxBatchSize = 4096 // a value of 5000 bytes is rejected with ErrTxnTooBig
+	opt.MaxBatchSize = 512 // a 900-byte value (below ValueThreshold, so counted in full) is rejected with ErrTxnTooBig
 	opt.WriteBatchWait = 100 * time.Microsecond
 	return NoKV.Open(opt)
 }
@@ -125,7 +125,7 @@ func execLinz(c *corr.Ctx, db *NoKV.DB, d linzDesc) corr.Case {
 					if o.Kind == "set" {
 						v := []byte(fmt.Sprintf("%d.%s", id, o.Val))
 						if o.Val == "big" {
-							v = make([]byte, 5000)
+							v = make([]byte, 900)
 							copy(v, fmt.Sprintf("%d.big.%d", id, call))
 							val = "(V " + corr.Hex(v[:24]) + ")"
 						} else {
@@ -188,7 +188,7 @@ func runLinz(c *corr.Ctx) error {
 	c.Meta("run_module", "RunLinz")
 	c.Meta("exhaustive", false)
 	c.Meta("rule", "3-4 goroutines x 4-6 operations (Set with unique values, Del, Get) on 2 fresh keys per history against one real DB "+
-		"(commit worker batching on, WriteHotKeyLimit=6 so that repeated writes are rejected, 5000-byte values rejected by MaxBatchSize, "+
+		"(commit worker batching on, WriteHotKeyLimit=6 so that repeated writes are rejected, 900-byte values rejected by MaxBatchSize=512, "+
 		"a fifth goroutine toggling the L0 write throttle in a third of the histories); call/return stamped by a global atomic counter; "+
 		"the complete history must satisfy lin_check. non-trivial = at least one write succeeded; distinct by Gallina term")
 	dir := scratchDir(c)
